@@ -184,9 +184,80 @@ def _fatal_with_hello_cases():
                             yield {"kind": "fatal_with_hello", "base": {"noise": noise, "login": login, "flow": flow, "K": 8.0, "final_at": 200.0}, "frames": fr, "more": more, **({"cuts": cuts} if cuts else {})}
 
 
+def run_stale_handle(case):
+    """Handles handed out on an earlier session (the awaitable stop_notify / the synchronous remover of a GATT notify
+    subscription) used while the client's NEXT connection is still in its handshake: a result or a library error."""
+    import asyncio
+    import base64
+
+    from aioesphomeapi import api_pb2 as pb
+    from aioesphomeapi.core import APIConnectionError
+
+    from vf import wire
+    from vf.simloop import START, IterationCap
+    from vf.simnet import Env, make_client
+
+    res = CaseResult(nontrivial=True, classes=["handles_of_an_earlier_session_used_during_the_next_handshake"])
+    noise = bool(case.get("noise", True))
+    env = Env(noise_key=life.KEY if noise else None)
+    dev = env.dev
+    idof = wire.ids()[1]
+    A = 0xAABBCCDDEEFF
+    dev.handlers[idof[pb.BluetoothGATTNotifyRequest]] = lambda s_, _p: s_.send(pb.BluetoothGATTNotifyResponse(address=A, handle=1))
+    cli = make_client(env, noise_psk=base64.b64encode(life.KEY).decode() if noise else None)
+    out: dict = {}
+
+    async def main():
+        await cli.connect(login=True)
+        stop, remove = await cli.bluetooth_gatt_start_notify(A, 1, lambda *_a: None, timeout=2.0)
+        how = case.get("lost", "reset")
+        tr = dev.session.transport
+        tr.reset() if how == "reset" else tr.feed_eof()
+        await asyncio.sleep(0.25)
+        if case.get("stage") == "handshake":
+            dev.noise_mute = True      # the next connection's handshake is never answered
+        else:
+            dev.auto = set()           # ... or its hello is not
+        env.spawn("reconn", cli.connect(login=True))
+        await asyncio.sleep(float(case.get("after", 0.5)))
+        for name, fn in (("stop_notify", stop), ("remove", remove)):
+            try:
+                r = fn()
+                if hasattr(r, "__await__"):
+                    await asyncio.wait_for(r, 30)
+                out[name] = "ok"
+            except APIConnectionError as e:
+                out[name] = "api:" + type(e).__name__
+            except asyncio.TimeoutError:
+                out[name] = "hang"
+            except Exception as e:  # noqa: BLE001
+                out[name] = "raw:" + type(e).__name__
+        await cli.disconnect(force=True)
+
+    env.loop.sim_at(0, lambda: env.spawn("main", main()))
+    env.loop.horizon = START + 300
+    try:
+        env.run()
+    except IterationCap as e:
+        env.close()
+        raise HarnessError(f"C09 stale handle: {e}") from e
+    r = env.results.get("main")
+    if r is None or r[0] != "ok":
+        env.close()
+        raise HarnessError(f"C09 stale handle: scenario failed: {r}")
+    for name, o in out.items():
+        if o.startswith("raw:") or o == "hang":
+            res.violations.append(Violation(ID, f"c09:stale-handle:{name}:{o}", f"{name}() of the lost session, called while the next connection is at the {case.get('stage')} stage: {o}"))
+    res.info = out
+    env.close()
+    return res
+
+
 def run_case(case):
     if case.get("kind") == "ble":
         return run_ble(case)
+    if case.get("kind") == "stale_handle":
+        return run_stale_handle(case)
     if case.get("kind") == "fatal_with_hello":
         return run_fatal_with_hello(case)
     if case.get("kind") == "graceful_then_fatal":
@@ -455,6 +526,11 @@ def _ble_connect_silent_cases():
 
 
 def enumerated(tier):
+    for noise in (True, False):
+        for stage in ("handshake", "hello"):
+            for lost in ("reset", "eof"):
+                for after in (0.05, 0.5, 3.0):
+                    yield {"kind": "stale_handle", "noise": noise, "stage": stage, "lost": lost, "after": after}
     yield from _ble_cases()
     yield from _ble_connect_silent_cases()
     yield from _stream_cases()
